@@ -1628,14 +1628,24 @@ int bufr_compare_value( const BufrValue *bv1, const BufrValue *bv2, double eps )
          break;
       case VALTYPE_STRING :
          {
-         const char  *s1, *s2;
+         const char  *s1, *s2, *rest;
          int    len1,len2;
-         int    len;
+         int    len, maxlen, i, rc;
 
          s1 = bufr_value_get_string( bv1, &len1 );
          s2 = bufr_value_get_string( bv2, &len2 );
          len = (len1 < len2) ? len1 : len2;
-         return strncmp ( s1, s2, len );
+         rc = strncmp ( s1, s2, len );
+         if (rc != 0) return rc;
+/*
+ * the strings agree over the length of the shorter one: they are equal only if
+ * what is left of the longer one is padding, not when one is a prefix of the other
+ */
+         rest = (len1 > len2) ? s1 : s2;
+         maxlen = (len1 > len2) ? len1 : len2;
+         for (i = len; (i < maxlen)&&(rest[i] != '\0') ; i++)
+            if (rest[i] != ' ') return (len1 > len2) ? 1 : -1;
+         return 0;
          }
       default :
          break;
